@@ -2951,12 +2951,13 @@ func (db *DB) snapshotPosition(ctx context.Context) (*snapshotReadPosition, erro
 
 // snapshotWALEndOffset returns the WAL offset a snapshot may read up to for
 // the given position. db.syncState is read without db.mu because every writer
-// mutates it while holding execSem, which the caller also holds.
+// mutates it while holding execSem, which the caller also holds. The offset is
+// only meaningful for the WAL generation the last LTX file was copied from.
 func (db *DB) snapshotWALEndOffset(pos ltx.Pos) (int64, error) {
-	if db.syncState.lastSyncedWALOffset > 0 {
-		return db.syncState.lastSyncedWALOffset, nil
-	}
 	if pos.TXID == 0 {
+		if db.syncState.lastSyncedWALOffset > 0 {
+			return db.syncState.lastSyncedWALOffset, nil
+		}
 		return WALHeaderSize, nil
 	}
 
@@ -2984,9 +2985,18 @@ func (db *DB) snapshotWALEndOffset(pos ltx.Pos) (int64, error) {
 	salt1 := binary.BigEndian.Uint32(hdr[16:])
 	salt2 := binary.BigEndian.Uint32(hdr[20:])
 	if salt1 != dec.Header().WALSalt1 || salt2 != dec.Header().WALSalt2 {
-		return WALHeaderSize, nil
+		// The WAL was restarted after the last sync (for example by the
+		// application's next write when our own post-checkpoint bookkeeping
+		// write failed). Neither the in-memory offset nor the extent recorded
+		// in the LTX file applies to the new generation, and its frames are
+		// not part of the position we would advertise. The next sync sorts
+		// this out; refuse the snapshot until then.
+		return 0, &DBNotReadyError{Reason: "wal restarted since the last sync"}
 	}
 
+	if db.syncState.lastSyncedWALOffset > 0 {
+		return db.syncState.lastSyncedWALOffset, nil
+	}
 	return dec.Header().WALOffset + dec.Header().WALSize, nil
 }
 
